@@ -131,7 +131,7 @@ PROPS = {
     },
     "C08": {
         "title": "Reachability operations return exactly the least fixed point",
-        "rules": [on_program(rules_dispatch.rule_dispatch), rules_ftype.rule_mix_image],
+        "rules": [on_program(rules_dispatch.rule_dispatch), rules_ftype.rule_mix_image, on_program(rules_sibling.rule_image_fire)],
         "explanation": STRUCTURAL + ". C08: one clause — the traditional (frontier / no frontier), saturation and one-step image factories select the same accumulate operator per forest kind "
                        "(boolean MT: UNION, integer MT: DIST_MIN, EV+: MINIMUM), a necessary condition of all algorithms returning the identical edge and of the distance variants using (min, +1) everywhere; "
                        "plus the cross-forest discipline of the reachability code.",
@@ -143,8 +143,8 @@ PROPS = {
     },
     "C09": {
         "title": "One-step image and vector-matrix products follow the relational definition",
-        "rules": [rules_ftype.rule_mix_image],
-        "explanation": STRUCTURAL + ". C09: cross-forest clause — in the image / vector-matrix template (all instantiations), its helpers and the relation-node abstraction, set forest, relation forest and result forest are three symbols and every handle is used only with its own.",
+        "rules": [rules_ftype.rule_mix_image, on_program(rules_sibling.rule_image_fire), on_program(rules_dispatch.rule_dispatch)],
+        "explanation": STRUCTURAL + ". C09: twin clause (the image step and saturation's fire step define their shared locals alike; the index range written into the result node is the size of the node's own level); cross-forest clause — in the image / vector-matrix template (all instantiations), its helpers and the relation-node abstraction, set forest, relation forest and result forest are three symbols and every handle is used only with its own.",
         "assumptions": ["the relational definition itself is not decided", "prepost_set_mtrel's private _compute is reached with swapped operands for MV_MULTIPLY; its parameter roles are then left unknown (no alarm, fewer checks)"],
         "technique": "forest-indexed typing of node handles over clang CFGs",
         "level_text": "exact static rule check over prepost_sets.cc, prepost_common.h, reach_trad.cc, satur_sets.cc, rel_node.h; decides the cross-forest clause only",
